@@ -86,7 +86,7 @@ def digest (s : State String String String) : String :=
   "|r=" ++ joinWith "," (s.results.map fun (k, _) => toString k) ++
   "|i=" ++ toString s.idx ++
   "|f=" ++ (match s.finEv with | some e => toString e | none => "-") ++
-  "|F=" ++ (match s.fullEv with | some e => toString e ++ (if e ∈ s.evSet then "+" else "") | none => "-") ++
+  "|F=" ++ (match s.fullEv with | some e => toString e ++ (if e ∈ s.fullSet then "+" else "") | none => "-") ++
   "|s=" ++ (if s.submitted then "1" else "0") ++
   "|p=" ++ joinWith "," (s.reqs.map fun r => rpcStr r.pc) ++
   "|b=" ++ joinWith "," (s.batches.map bpcStr) ++
